@@ -305,7 +305,10 @@ func (fr *Frame) modCall(call *ast.CallExpr, ms *modSet, info *types.Info, visit
 	case *ast.Ident:
 		if o, ok := info.Uses[f].(*types.Func); ok {
 			callee = o
-		} else if _, ok := info.Uses[f].(*types.Var); ok {
+		} else if v, ok := info.Uses[f].(*types.Var); ok {
+			if fr.pureFuncVar(v) {
+				return // a call through a variable that only ever holds pure declared functions
+			}
 			// closure variable: its body is walked where it is defined (FuncLit inside the loop or before);
 			// conservatively everything
 			ms.all = true
